@@ -130,6 +130,12 @@ func isLocalAlloc(a *ssa.Alloc) bool {
 				if u.X != v || !ok(u) {
 					return false
 				}
+			case *ssa.Slice:
+				// the array behind a variadic call: written before it is sliced, never after; the
+				// slice is materialised as a copy at that point
+				if a.Comment != "varargs" || u.X != v || v != ssa.Value(a) {
+					return false
+				}
 			default:
 				return false
 			}
@@ -844,6 +850,7 @@ func (fr *Frame) evalLoopClause(ld *loopData, cl *Clause, phiVals map[*ssa.Phi]V
 		args = append(args, x)
 	}
 	args = append(args, fr.rangeIdx(ld, phiVals))
+	args = append(args, fr.argVals...)
 	r := vc.evalSpec(cf, args, fr.st, fr.old)
 	return r.T
 }
@@ -859,8 +866,19 @@ func (fr *Frame) rangeIdx(ld *loopData, phiVals map[*ssa.Phi]Val) Val {
 				v, ok = fv, true
 			}
 		}
-		if !ok || bvWidth(v.T.Sort) != 64 {
+		if !ok || bvWidth(v.T.Sort) <= 0 {
 			continue
+		}
+		if phi.Comment != "rangeindex" && phi.Comment != "rangeint.iter" {
+			continue
+		}
+		if w := bvWidth(v.T.Sort); w < 64 {
+			// a counter of a narrower integer type (for i := range n with n int32, uint8, ...)
+			ext := "zero_extend"
+			if isSigned(fr.vc.rt(phi.Type())) {
+				ext = "sign_extend"
+			}
+			v = Val{T: Term{fmt.Sprintf("((_ %s %d) %s)", ext, 64-w, v.T.S), bvSort(64)}}
 		}
 		switch phi.Comment {
 		case "rangeindex":
@@ -896,6 +914,7 @@ func (fr *Frame) evalPointClause(ld *loopData, cl *Clause, at *ssa.BasicBlock) T
 		args = append(args, x)
 	}
 	args = append(args, fr.rangeIdx(ld, nil))
+	args = append(args, fr.argVals...)
 	return vc.evalSpec(cf, args, fr.st, fr.old).T
 }
 
@@ -1620,6 +1639,12 @@ func (fr *Frame) arrayGet(arr Term, at types.Type, idx Term, it types.Type) Term
 	si := fr.vc.structInfo(at)
 	i := fr.idx64(idx, it)
 	n := len(si.Fields)
+	// constant index: select the element directly
+	for k := 0; k < n; k++ {
+		if i.S == bvLit(uint64(k), 64).S {
+			return si.get(arr, k)
+		}
+	}
 	r := si.get(arr, n-1)
 	for k := n - 2; k >= 0; k-- {
 		r = ite(eq(i, bvLit(uint64(k), 64)), si.get(arr, k), r)
@@ -1632,7 +1657,14 @@ func (fr *Frame) arraySet(arr Term, at types.Type, idx Term, it types.Type, v Te
 	i := fr.idx64(idx, it)
 	var fs []Term
 	for k := range si.Fields {
-		fs = append(fs, ite(eq(i, bvLit(uint64(k), 64)), v, si.get(arr, k)))
+		switch {
+		case i.S == bvLit(uint64(k), 64).S:
+			fs = append(fs, v)
+		case len(i.S) > 5 && (i.S[:5] == "(_ bv" || i.S[:2] == "#x"):
+			fs = append(fs, si.get(arr, k))
+		default:
+			fs = append(fs, ite(eq(i, bvLit(uint64(k), 64)), v, si.get(arr, k)))
+		}
 	}
 	return si.mk(fs)
 }
@@ -1722,7 +1754,12 @@ func (fr *Frame) slice(t *ssa.Slice) {
 			return
 		}
 		// materialise the array as a fresh heap slice (used for varargs)
-		av := fr.load(t.X, t.Pos())
+		var av Term
+		if xv := fr.val(t.X); xv.Cell != nil {
+			av = fr.cellGet(xv.Cell).T
+		} else {
+			av = fr.load(t.X, t.Pos())
+		}
 		si := vc.structInfo(u.Elem())
 		n := arr.Len()
 		if t.Low != nil || t.High != nil || t.Max != nil {
